@@ -65,3 +65,119 @@ def run(rep, tier, build, replay=None):
         'cases': len(cases),
     })
     rep.samples.append({'resources': [nm for nm, _ in cases[0]['resources']], 'routes': sorted(outs[0][0]['routes'])})
+    project_correspondence(rep, rng, tier)
+
+
+LMF = ('<?xml version="1.0" encoding="UTF-8"?>\n<!DOCTYPE LexicalResource SYSTEM "http://globalwordnet.github.io/schemas/'
+       'WN-LMF-1.%d.dtd">\n<LexicalResource xmlns:dc="https://globalwordnet.github.io/schemas/dc/">\n</LexicalResource>\n')
+
+
+def gen_tree(rng, depth):
+    leaves = [
+        ('lmf', LMF % rng.choice([0, 1, 3])), ('lmf', LMF % 1 + '<!-- %d -->' % rng.randint(0, 99)),
+        ('ili', 'ili\tstatus\ni1\tactive\n'), ('ili', 'ILI\tdefinition\n'), ('junk', 'readme text'),
+        ('junk', '<?xml version="1.0"?>\n<other/>\n'), ('junk', 'ili\n'), ('junk', ''),
+        ('junk', LMF.replace('WN-LMF-1.%d', 'WN-LMF-9.%d') % 1)]
+
+    def leaf():
+        k, t = rng.choice(leaves)
+        return ['file', ['raw', list(t.encode('utf-8'))]], k
+
+    def package():
+        n, k = leaf()
+        es = [['res.xml', n]]
+        for j in range(rng.choice([0, 1, 2])):
+            es.append(['extra%d' % j, rng.choice([['file', ['raw', list(b'notes')]], ['dir', [['x', ['file', ['raw', []]]]]]])])
+        if rng.random() < 0.15:
+            es.append(['second.xml', leaf()[0]])
+        rng.shuffle(es)
+        return ['dir', es]
+
+    def tree(d):
+        r = rng.random()
+        if d == 0 or r < 0.3:
+            n, _ = leaf()
+            if rng.random() < 0.4:
+                n = ['file', [rng.choice(['gz', 'xz']), n[1]]]
+                if rng.random() < 0.15:
+                    n = ['file', ['gz', n[1]]]
+            return n
+        if r < 0.5:
+            return package()
+        if r < 0.65:
+            return ['dir', [['p%d' % j, package()] for j in range(rng.choice([1, 2, 3]))]
+                    + ([['README', ['file', ['raw', list(b'r')]]]] if rng.random() < 0.5 else [])]
+        members = [['m%d' % j, tree(d - 1)] for j in range(rng.choice([1, 1, 1, 2, 0]))]
+        c = ['tar', members]
+        if rng.random() < 0.5:
+            c = [rng.choice(['gz', 'xz']), c]
+        return ['file', c]
+    return tree(depth)
+
+
+def leaves_of(n):
+    if n[0] == 'dir':
+        out = set()
+        for _name, x in n[1]:
+            out |= leaves_of(x)
+        return out
+    c = n[1]
+    while c[0] in ('gz', 'xz'):
+        c = c[1]
+    if c[0] == 'raw':
+        return {bytes(c[1])}
+    out = set()
+    for _name, x in c[1]:
+        out |= leaves_of(x)
+    return out
+
+
+def tree_sx(n):
+    if n[0] == 'dir':
+        return [1, [[name, tree_sx(x)] for name, x in n[1]]]
+    return [0, content_sx(n[1])]
+
+
+def content_sx(c):
+    if c[0] == 'raw':
+        return [0, list(c[1])]
+    if c[0] == 'gz':
+        return [1, content_sx(c[1])]
+    if c[0] == 'xz':
+        return [2, content_sx(c[1])]
+    return [3, [[name, tree_sx(x)] for name, x in c[1]]]
+
+
+def project_correspondence(rep, rng, tier):
+    n = 150 if tier == 'quick' else 2500
+    trees = [gen_tree(rng, rng.choice([1, 2, 3])) for _ in range(n)]
+    nsh = common.NPROC
+    outs = common.run_impl_parallel('run_project.py', [{'trees': trees[i::nsh]} for i in range(nsh)])
+    res = [None] * n
+    for i in range(nsh):
+        for j, r in enumerate(outs[i]):
+            res[i + j * nsh] = r
+    accepted = [list((LMF % v).encode()) for v in (0, 1, 3)] + \
+        [list((LMF % 1 + '<!-- %d -->' % k).encode()) for k in range(100)]
+    pairs = []
+    kinds = {}
+    for t, r in zip(trees, res):
+        if r[0] == 'ok':
+            exp = [[0 if ty == 'wordnet' else 1, b] for ty, b in r[1]]
+        elif r[1] == 'WnError':
+            exp = -1
+        else:
+            rep.fail('iterpackages raised something else than wn.Error', {'tree': t}, {'got': r})
+            continue
+        kinds[str(exp if exp == -1 else len(exp))] = kinds.get(str(exp if exp == -1 else len(exp)), 0) + 1
+        pairs.append(([tree_sx(t), [a for a in accepted if bytes(a) in leaves_of(t)]], exp))
+    mism, info = common.coq_mismatches('WnV.Model.Project', 'run_project', 'agree_project', pairs, tag='c07', shard=60)
+    if info['errors']:
+        rep.broke('correspondence evaluation failed in Coq: ' + '; '.join(info['errors'])[:1500])
+    if mism:
+        rep.broke('correspondence Model/Project.v vs wn.project.iterpackages: %d of %d cases differ; first: %s -> impl %s; model: %s'
+                  % (len(mism), len(pairs), trees[0] and str(pairs[mism[0]][0][0])[:800], str(pairs[mism[0]][1])[:200],
+                     info.get('model_outputs', '')[:400]))
+    rep.coverage['traces_validated_against_impl'] = len(pairs)
+    rep.coverage['project_result_kinds'] = kinds
+    rep.coverage['correspondence_mismatches'] = len(mism)
